@@ -186,6 +186,31 @@ def run_spec(tape, spec, extra_threads=None, executes=1, style=0):
           threads.append(('w', th))
         if extra_threads:
           extra_threads(sim, ctx, test, threads)
+        if spec.get('prior_run'):
+          # an earlier, undisturbed execution of the same Test object; what is observed (and
+          # aborted) is the next one
+          saved_on_event, sim.on_event = sim.on_event, None
+          saved_trig = dict(sim.triggers)
+          sim.triggers = {}
+          sim.next_trigger = None
+          try:
+            test.execute(test_start=start, **xkw)
+          except core.SimAbort:
+            raise
+          except BaseException:  # pylint: disable=broad-except
+            pass
+          ctx.inv.clear()
+          ctx.runif.clear()
+          ctx.diag_calls.clear()
+          obs.extra['log_from'] = len(sim.log)
+          obs.extra['sink_from'] = len(obs.sink)
+          obs.extra['steps_from'] = sim.steps
+          sim.on_event = saved_on_event
+          # re-arm step triggers relative to the start of the observed run
+          for st_ in sorted(saved_trig):
+            for fn_ in saved_trig[st_]:
+              sim.at_step(sim.steps + st_, fn_)
+          obs.faults['earlier_run_of_same_test'] = 1
         sim.event('exec_call')
         try:
           obs.ret = test.execute(test_start=start, **xkw)
@@ -237,7 +262,8 @@ def run_spec(tape, spec, extra_threads=None, executes=1, style=0):
           sim.event('exec_call', j)
           r = {'ret': None, 'exc': None}
           try:
-            r['ret'] = test.execute(test_start=start, **xkw)
+            # (later_start_none: the later executions are started without the trigger phase)
+            r['ret'] = test.execute(test_start=None if spec.get('later_start_none') else start, **xkw)
             sim.event('exec_ret', r['ret'])
           except core.SimAbort:
             raise
@@ -271,7 +297,9 @@ def run_spec(tape, spec, extra_threads=None, executes=1, style=0):
     if conf:
       CONF.reset()
     bodies.CURRENT.pop(ctx.tag, None)
-  obs.log = sim.log
+  obs.log = sim.log[obs.extra.get('log_from', 0):]
+  if obs.extra.get('sink_from'):
+    del obs.sink[:obs.extra['sink_from']]
   obs.extra['test'] = test
   return obs
 
